@@ -8,6 +8,7 @@ From BU Require Export Lib.Bytes.
 From BU Require Export JsonPb.JsonPb.
 From BU Require Import CashAddr.CashAddr Base58.Base58 Bech32.Bech32 JsonPb.Codecs.
 From BU Require Import NoPanic.CashAddrNP NoPanic.Base58NP NoPanic.Bech32NP.
+From BU Require Import Bloom.Bloom NoPanic.BloomNP Merkle.Merkle Merkle.MerkleRun.
 
 Inductive case :=
 | CashDec (s : list N) (ok : bool) (prefix payload : list N)       (* bchutil.DecodeCashAddress *)
@@ -16,7 +17,13 @@ Inductive case :=
 | BechEnc (hrp data : list N) (ok : bool) (out : list N)            (* bech32.Encode *)
 | Conv (data : list N) (fromBits toBits : N) (pad : bool) (ok : bool) (out : list N)   (* bech32.ConvertBits *)
 | ConvHex (input output : json)                                     (* jsonpb.convertHex, tree before / after *)
-| ConvB64 (input output : json).                                    (* jsonpb.convertBase64 *)
+| ConvB64 (input output : json)                                     (* jsonpb.convertBase64 *)
+| BloomM (loaded : bool) (bytes : list N) (nhash tweak flags : N) (data : list N) (res : bool)
+                                                                    (* bloom.LoadFilter(msg).Matches(data) *)
+| BloomA (bytes : list N) (nhash tweak flags : N) (data : list N) (after : list N)
+                                                                    (* ... .Add(data); MsgFilterLoad().Filter *)
+| MerkleX (maxtx ntx : N) (hashes : list (list N)) (flagbytes : list N) (accepted bad : bool).
+                                                                    (* NewMerkleBlockFromMsg + ExtractMatches: root != nil, BadTree() *)
 
 Definition res_pair_eqb (a b : res (list N * list N)) : bool :=
   match a, b with
@@ -70,6 +77,23 @@ Definition check (c : case) : bool :=
       match conv_base64 input with
       | Ok j => json_eqb j output
       | _ => false
+      end
+  | BloomM loaded bytes nhash tweak flags data res =>
+      let f := if loaded then Some (MkMsg bytes nhash tweak flags) else None in
+      match BloomNP.matches_checked true f data with
+      | Ok b => Bool.eqb b res && Bool.eqb (Bloom.matches f data) res
+      | _ => false
+      end
+  | BloomA bytes nhash tweak flags data after =>
+      match BloomNP.add_checked true (Some (MkMsg bytes nhash tweak flags)) data with
+      | Ok (Some m) => list_eqb (m_bytes m) after
+      | _ => false
+      end
+  | MerkleX maxtx ntx hashes flagbytes accepted bad =>
+      match Merkle.extract (node_hash_run []) maxtx (mkMsg [] ntx hashes flagbytes) with
+      | Ok _ => accepted && negb bad
+      | Err e => negb accepted && Bool.eqb bad (e =? 5)
+      | Panic _ => false
       end
   end.
 
